@@ -13,6 +13,7 @@ import subprocess
 import tempfile
 import time
 import multiprocessing as mp
+import threading
 
 import z3
 
@@ -98,41 +99,119 @@ def run_z3(text, timeout, seed=0):
     return verdict, time.time() - t0, model, reason
 
 
+class _Z3Thread(threading.Thread):
+    def __init__(self, text, timeout, seed):
+        super().__init__(daemon=True)
+        self.text, self.timeout, self.seed = text, timeout, seed
+        self.ctx = z3.Context()
+        self.result = None
+
+    def run(self):
+        s = z3.Solver(ctx=self.ctx)
+        s.set("timeout", int(self.timeout * 1000))
+        if self.seed:
+            s.set("random_seed", self.seed)
+        t0 = time.time()
+        try:
+            s.from_string(self.text)
+            r = str(s.check())
+            model, reason = None, ""
+            if r == "sat":
+                try:
+                    m = s.model()
+                    model = {d.name(): str(m[d]) for d in m.decls() if d.arity() == 0}
+                except z3.Z3Exception:
+                    model = None
+            elif r == "unknown":
+                reason = s.reason_unknown()
+            self.result = (r, time.time() - t0, model, reason)
+        except z3.Z3Exception as e:
+            self.result = ("unknown", time.time() - t0, None, "z3 exception: %s" % e)
+
+
 def solve_text(task):
-    """task = dict(name, text, regex=bool).  Returns dict with verdict/backend/time/model."""
+    """task = dict(name, text).  z3 quickly first; then z3 (thread) and cvc5 (process) race."""
     text = task["text"]
     out = {"name": task["name"], "sub": task.get("sub", 0)}
-    total = 0.0
     trail = []
-    v, t, model, reason = run_z3(text, task.get("z3_t1", Z3_T1))
-    total += t
+    t_start = time.time()
+    quick = min(2.0, task.get("z3_t1", Z3_T1))
+    v, t, model, reason = run_z3(text, quick)
     trail.append(("z3", v, round(t, 3)))
     backend = "z3"
-    if v == "unknown" and not task.get("z3_only"):
-        v2, t2, err = run_cvc5(text, task.get("cvc5_t", CVC5_T))
-        total += t2
-        trail.append(("cvc5", v2, round(t2, 3)))
-        if v2 in ("sat", "unsat"):
-            v, backend = v2, "cvc5"
-            if v2 == "sat":
-                # ask z3 again (longer) only to obtain a model; verdict stays with cvc5
-                v3, t3, model, _ = run_z3(text, Z3_T2, seed=7)
-                total += t3
-                trail.append(("z3-model", v3, round(t3, 3)))
-                if v3 == "unsat":
-                    out.update(verdict="disagree", backend="z3/cvc5", time=total, model=None, trail=trail)
-                    return out
-        else:
-            v3, t3, model, reason = run_z3(text, task.get("z3_t2", Z3_T2), seed=11)
-            total += t3
-            trail.append(("z3#2", v3, round(t3, 3)))
-            v, backend = v3, "z3"
-    elif v == "unknown":
-        v3, t3, model, reason = run_z3(text, task.get("z3_t2", Z3_T2), seed=11)
-        total += t3
-        trail.append(("z3#2", v3, round(t3, 3)))
-        v = v3
-    out.update(verdict=v, backend=backend, time=total, model=model, trail=trail, reason=reason)
+    if v == "unknown":
+        proc = None
+        path = None
+        ct = task.get("cvc5_t", CVC5_T)
+        zt = task.get("z3_t2", Z3_T2)
+        if not task.get("z3_only"):
+            f = tempfile.NamedTemporaryFile("w", suffix=".smt2", delete=False)
+            f.write(sanitize_for_cvc5(text))
+            f.close()
+            path = f.name
+            proc = subprocess.Popen([CVC5, "--strings-exp", "--tlimit=%d" % int(ct * 1000), path],
+                                    stdout=subprocess.PIPE, stderr=subprocess.PIPE, text=True)
+        th = _Z3Thread(text, zt, 3)
+        th.start()
+        t1 = time.time()
+        v2 = None
+        try:
+            while True:
+                if th.result is not None and th.result[0] in ("sat", "unsat"):
+                    v, _, model, reason = th.result
+                    backend = "z3"
+                    trail.append(("z3#2", v, round(time.time() - t1, 3)))
+                    break
+                if proc is not None and v2 is None and proc.poll() is not None:
+                    so = proc.stdout.read()
+                    res = so.strip().splitlines()
+                    v2 = res[0].strip() if res else "unknown"
+                    if v2 not in ("sat", "unsat"):
+                        v2 = "unknown"
+                    trail.append(("cvc5", v2, round(time.time() - t1, 3)))
+                    if v2 == "unsat":
+                        v, backend = "unsat", "cvc5"
+                        break
+                    if v2 == "sat":
+                        # keep z3 running a little for a model / cross-check
+                        th.join(timeout=min(10.0, zt))
+                        if th.result is not None and th.result[0] == "unsat":
+                            out.update(verdict="disagree", backend="z3/cvc5", time=time.time() - t_start,
+                                       model=None, trail=trail)
+                            return out
+                        v, backend = "sat", "cvc5"
+                        model = th.result[2] if th.result is not None else None
+                        break
+                z3_done = th.result is not None
+                cvc5_done = proc is None or v2 is not None
+                if z3_done and cvc5_done:
+                    v, reason = "unknown", (th.result[3] if th.result else "")
+                    trail.append(("z3#2", "unknown", round(time.time() - t1, 3)))
+                    break
+                if time.time() - t1 > max(ct, zt) + 10:
+                    v = "unknown"
+                    break
+                time.sleep(0.05)
+        finally:
+            if th.is_alive():
+                try:
+                    th.ctx.interrupt()
+                except Exception:
+                    pass
+                th.join(timeout=5)
+            if proc is not None and proc.poll() is None:
+                proc.kill()
+            if proc is not None:
+                try:
+                    proc.communicate(timeout=2)
+                except Exception:
+                    pass
+            if path:
+                try:
+                    os.unlink(path)
+                except OSError:
+                    pass
+    out.update(verdict=v, backend=backend, time=time.time() - t_start, model=model, trail=trail, reason=reason)
     return out
 
 
@@ -146,6 +225,8 @@ def _solve_vc(idx):
     vc = _VCS[idx]
     t0 = time.time()
     ground = list(vc.hyps) + [vc.goal]
+    if "goal_terms" in vc.meta:
+        ground.append(vc.meta["goal_terms"] == vc.meta["goal_terms"])
     extra = list(vc.extra_terms) + list(vc.meta.get("extra_terms", []))
     insts = inst.instantiate(ground, vc.schemas, rounds=vc.meta.get("rounds", _ROUNDS), extra_terms=extra)
     text = to_smt2(list(vc.hyps) + insts, z3.Not(vc.goal))
